@@ -1,5 +1,5 @@
 def I(name, entry=None, **kw):
-    d = dict(name=name, entry=entry or 'h_' + name, unwind=10, timeout_s=300, mem_gb=6, safety_is_property=True, cdefs={'VP_UTF8_LATIN1': 1}, bound=''); d.update(kw); return d
+    d = dict(name=name, entry=entry or 'h_' + name, unwind=10, timeout_s=300, mem_gb=6, safety_is_property=True, object_bits=12, cdefs={'VP_UTF8_LATIN1': 1}, bound=''); d.update(kw); return d
 def DOMLOOPS(n):
     """sibling walks of the real DOM helpers: <= n-1 children per element (checked by the unwinding assertions)"""
     return {r'^_ZN5QXmpp7Private17firstChildElementERK11QDomElement11QStringView': n, r'^_ZN5QXmpp7Private18nextSiblingElementERK11QDomElement11QStringView': n}
